@@ -3,7 +3,7 @@
 Stages
   0. harness/props/c13_translate.py re-reads the schemathesis source and rewrites coq/theories/C13/Gen_C13.v (the entropy plan:
      one entry per draw site, Seeded/Ambient).  A call site that disappeared or changed shape -> broken tie.
-  1. proofs (Properties_C13.v: 32 theorems about run / gen_sites / interleave / traffic_after / gen_carried).
+  1. proofs (Properties_C13.v: 37 theorems about run / gen_sites / interleave / traffic_after / gen_carried / cfg_after / gen_owned_writes).
   2. correspondence, plan vs runtime: the engine is run in fresh subprocesses with the Hypothesis boundary instrumented
      (harness/props/c13_runner.py): every PRNG Hypothesis hands to a test is recorded with its explicit seed and whether it was
      consulted.  Compared with the SAME Gallina definitions the theorems are about, evaluated by vm_compute:
@@ -23,6 +23,13 @@ Stages
      Around every run the process-wide containers the translator found (module-level containers, results of zero-argument
      lru_cache functions) are snapshotted and judged by Model_C13.overwritten_sites / changed_sites (vm_compute): what
      C13_safe_entries_survive_runs proves about Memo / Registry sites.  Gen_C13.gen_carried is the list of carried sites.
+  5. reused input objects (the caller keeps its EngineConfig / ExecutionConfig / NetworkConfig / GenerationConfig / Override / schema
+     objects and gives them to a second run): c13_translate.owned_config_scan lists every write whose target is reachable from such
+     an object (also one level below a shallow replace()) -> Gen_C13.gen_owned_writes (none today; theorem
+     C13_current_caller_configuration_unchanged_partial).  Oracle: run twice on the SAME objects (probing, examples, coverage, fuzzing,
+     stateful with links; one worker) + once in a fresh process; per-phase traffic run 2 = run 1 = fresh; the objects are dumped
+     field by field (dataclasses recursively, hypothesis.settings by attribute values) before and after every run and judged by
+     Model_C13.changed_fields against owned_writes_active gen_owned_writes (vm_compute).
 """
 from __future__ import annotations
 
@@ -423,6 +430,28 @@ def histories(rng, quick: bool, mult: int) -> list[History]:
     return out
 
 
+def reuse_scenarios(rng, quick: bool, mult: int) -> list:
+    """(scenario, settings style): all phases incl. stateful with links, one worker; the configuration objects carry every kind of
+    field (hypothesis.settings left mostly at their defaults or fully specified, generic headers, overrides, both modes)."""
+    from harness.engine_util import demo_schema
+
+    out = [
+        (Scenario("reuse-all-phases-minimal-settings", stateful_schema(), ["examples", "coverage", "fuzzing", "stateful"], max_examples=5, strict=True, preimport=True), "minimal"),
+        (Scenario("reuse-all-phases-full-settings", stateful_schema(), ["examples", "coverage", "fuzzing", "stateful"], max_examples=4, strict=True, preimport=True,
+                  headers={"X-Trace": "demo"}), "full"),
+    ]
+    for i in range((1 if quick else 8) * mult):
+        extra = gen_schema(rng, rng.randint(1, 2))["paths"]
+        raw = demo_schema(extra_paths=extra)
+        headers, override = None, None
+        if rng.random() < 0.6:
+            raw, headers, override = with_overrides(rng, raw)
+        out.append((Scenario(f"reuse{i}-drawn", raw, ["examples", "coverage", "fuzzing", "stateful"], rng.choice([["positive"], ["positive", "negative"]]),
+                             max_examples=rng.randint(3, 5), step_count=rng.choice([None, None, 4]), strict=True, preimport=True, headers=headers, override=override),
+                    rng.choice(["minimal", "full"])))
+    return out
+
+
 def c_entries(entries) -> str:
     return clist([ctuple(cN(a), cN(b), cN(c)) for a, b, c in entries], "(N * N * N)")
 
@@ -549,6 +578,7 @@ def run(chk: core.Check):
         "harness/props/c13_translate.py: the ast translator that extracts gen_sites / gen_cli_seed from the source (fail closed; name-based call graph over 4 modules; syntactic set-iteration scan over 6 modules)",
         "harness/props/c13_runner.py: instrumentation of hypothesis.core.get_random_for_wrapped_test / hypothesis.seed / choose_boundary, loopback recorder, identity-token snapshots of the process-wide containers",
         "harness/props/c13_translate.py process_state_scan: syntactic scan for in-place mutations of module-level objects / lru_cache results / class-level attributes (aliases through locals, fetched elements, un-cached wrappers and parameter-mutating package functions) + the hand classification tables PROCESS_STATE_CLASSIFIED / CACHED_CLASSIFIED whose evidence is re-verified on every run",
+        "harness/props/c13_translate.py owned_config_scan: syntactic scan for writes into configuration objects of the caller (parameters annotated ...Config / Override or named config / *_config, <x>.config, aliases, one level below replace()/copy()); c13_runner.dump_inputs: the deep dump of the objects",
         "Hypothesis 6.168: a test draws randomness only from the PRNG returned by get_random_for_wrapped_test",
     ]
     chk.assumptions = [
@@ -567,7 +597,8 @@ def run(chk: core.Check):
         "define; worker scenarios (1/2/3 workers) come plain and configured with a slow first operation; process histories X;Y;X in one process + X, Y in fresh "
         "processes over configuration pairs (allow_x00, header strategy, codec, custom string formats, modes, security parameters, GraphQL nullables; "
         "fixed pairs in both orders + pairs drawn from VERIF_SEED) on schemas with plain string headers/cookies/formats, the stateful demo schema, "
-        "multi-file schemas sharing one directory per process and a GraphQL schema; non-trivial = the phase sent at least 2 requests"
+        "multi-file schemas sharing one directory per process and a GraphQL schema; reused input objects: the stateful demo schema (+ operations drawn from VERIF_SEED, generic headers, overrides, "
+        "both modes, hypothesis.settings minimal / fully specified), all five phases, two runs on the same EngineConfig / schema objects + a fresh process; non-trivial = the phase sent at least 2 requests"
     )
 
     # ---- 0. translate the source into Gen_C13.v
@@ -585,6 +616,8 @@ def run(chk: core.Check):
             "entropy_primitives_classified": len(translated["primitives"]),
             "carried_sites": [{"id": c["id"], "class": c["cclass"], "phases": c["phases"], "in_request": c["in_request"], "where": c["where"]} for c in translated["carried"]],
             "snapshot_carriers": len(translated["snapshot_carriers"]),
+            "owned_writes": [{"id": w["id"], "phases": w["phases"], "where": w["where"]} for w in translated["owned_writes"]],
+            "owned_writes_classified": translated["owned_classified"],
         }
     except c13_translate.TranslationError as exc:
         chk.broken.append({"kind": "translate", "what": "c13_translate: the source no longer has the shape the plan is extracted from", "detail": str(exc)})
@@ -699,6 +732,14 @@ def run(chk: core.Check):
         jobs.append((h, "SEQ", {"sequence": [sx, sy, sx]}, hash_a))
         jobs.append((h, "FX", sx, hash_a))
         jobs.append((h, "FY", sy, hash_a))
+    # reused input objects: ONE EngineConfig / ExecutionConfig / NetworkConfig / GenerationConfig / Override / schema object for two
+    # runs in a process (all five phases, stateful with links, one worker) + the same run in a fresh process
+    rscen = reuse_scenarios(rng, quick, mult)
+    for sc, settings in rscen:
+        seeds[sc.name] = rng.choice([0, 1, 2**31]) if rng.random() < 0.2 else rng.randrange(1, 10**6)
+        sp = {**sc.spec(seeds[sc.name]), "phases": ["probing"] + sc.phases, "dump_inputs": True, "settings": settings}
+        jobs.append((sc, "RU", {"reuse": sp, "runs": 2}, hash_a))
+        jobs.append((sc, "RF", sp, hash_a))
     # different seeds are free to differ (counted, nothing demanded)
     dsc = Scenario("different-seeds", gen_schema(rng, 2), ["fuzzing"])
     jobs.append((dsc, "D1", dsc.spec(11), hash_a))
@@ -715,7 +756,7 @@ def run(chk: core.Check):
 
     # seeds Hypothesis must have been given, from the model
     need = set()
-    for sc in scenarios + wscen:
+    for sc in scenarios + wscen + [r[0] for r in rscen]:
         for phase in sc.phases:
             ctx = (phase, "negative" in sc.modes, sc.multipart)
             for k in range(6):
@@ -786,6 +827,49 @@ def run(chk: core.Check):
     check_snapshots(chk, hist_runs, carrier_class, hstage)
     hstage["unsafe_sites_by_phase"] = unsafe_by_phase
     chk.stages["process_history"] = hstage
+
+    # ---- reused input objects: a run must not write into the configuration objects of its caller
+    rstage = {"scenarios": len(rscen), "compared": 0, "object_dumps": 0, "fields": 0, "runs_that_changed_their_inputs": 0}
+    exprs, meta = [], []
+    for sc, settings in rscen:
+        ru, rf = by.get((sc.name, "RU")), by.get((sc.name, "RF"))
+        if not (ru and rf) or len(ru) != 2:
+            continue
+        s = seeds[sc.name]
+        extra = {"reused_objects": True, "settings": settings, "max_examples": sc.max_examples, "headers": sc.headers, "override": sc.override}
+        for phase, reqs in split_by_phase(ru[0]).items():
+            chk.seen({"reuse": sc.name, "seed": s, "phase": phase, "n": len(reqs), "first": reqs[:1]}, len(reqs) >= 2)
+        if not split_by_phase(ru[0]).get("stateful"):
+            chk.broken.append({"kind": "harness", "what": f"reuse scenario {sc.name}: the first run sent no stateful requests", "detail": ru[0]["phase_marks"]})
+        for r in (ru[0], ru[1], rf[0]):
+            n_errors += len(r["errors"])
+            check_seeds(chk, plan_seeds, sc, s, r)
+        rstage["compared"] += 1
+        compare_pair(chk, plan, sc, s, "second-run-on-the-SAME-configuration-and-schema-objects", ru[0], ru[1], True, extra)
+        compare_pair(chk, plan, sc, s, "run-on-reused-objects-vs-fresh-process", ru[1], rf[0], True, extra)
+        compare_pair(chk, plan, sc, s, "first-run-vs-fresh-process", ru[0], rf[0], True, extra)
+        toks: dict = {}
+        tok = lambda x: toks.setdefault(x, len(toks) + 1)  # noqa: E731
+        for position, r in enumerate(ru):
+            before, after = r.get("cfg_before") or [], r.get("cfg_after") or []
+            rstage["object_dumps"] += 2
+            rstage["fields"] += len(after)
+            chk.seen({"inputs_dump": [sc.name, s, position]}, len(before) >= 20)
+            cb = clist([ctuple(cN(tok("p:" + a)), cN(tok("v:" + b))) for a, b in before], "(N * N)")
+            ca = clist([ctuple(cN(tok("p:" + a)), cN(tok("v:" + b))) for a, b in after], "(N * N)")
+            phs = "[" + "; ".join(PHASE_CTOR[p] for p in sc.phases) + "]"
+            exprs.append(f"(owned_writes_active gen_owned_writes {phs}, changed_fields {cb} {ca})")
+            meta.append((sc, s, position, settings, dict(before), dict(after), {v: k for k, v in toks.items()}))
+    if exprs:
+        for (sc, s, position, settings, before, after, names), (predicted, changed) in zip(meta, core.coq_eval(IMPORTS, exprs)):
+            if changed:
+                rstage["runs_that_changed_their_inputs"] += 1
+                fields = sorted({names[c][2:] for c in changed})
+                chk.disagree("configuration / schema objects of the caller right before vs right after a real run (deep dump, Model_C13.changed_fields) vs "
+                             "the write sites of the plan (owned_writes_active gen_owned_writes): C13_run_leaves_caller_configuration_unchanged",
+                             {"scenario": sc.name, "seed": s, "run": position, "phases": sc.phases, "settings": settings},
+                             {"changed_fields": [[f, before.get(f), after.get(f)] for f in fields[:12]]}, {"write_sites_of_the_plan_executed_by_this_run": predicted})
+    chk.stages["reused_input_objects"] = rstage
 
     # ---- workers
     wstage = {"comparisons": 0, "skipped_ambient": 0, "order_checked_in_coq": 0}
@@ -894,6 +978,19 @@ def replay(payload) -> int:
         print("failing input:", f.get("what"))
         print("  scenario:", case.get("scenario"), "seed:", case.get("seed"), "pair:", case.get("pair"), "phase:", case.get("phase"))
         print("  first difference:", json.dumps(case.get("diff"))[:600])
+        if case.get("reused_objects") and case.get("phase"):
+            sp = {"schema": case["schema"], "phases": ["probing", "examples", "coverage", "fuzzing", "stateful"], "modes": case.get("modes", ["positive"]), "seed": case["seed"],
+                  "workers": 1, "max_examples": case.get("max_examples", 4), "preimport": True, "dump_inputs": True, "settings": case.get("settings"),
+                  "headers": case.get("headers"), "override": case.get("override")}
+            two = child({"reuse": sp, "runs": 2}, "0")["runs"]
+            fresh = child(sp, "0")["runs"][0]
+            print("  re-run: second run on the SAME EngineConfig / schema objects vs the first:", "DIFFERENT" if two[0]["requests"] != two[1]["requests"] else "equal",
+                  "; vs a fresh process:", "DIFFERENT" if two[1]["requests"] != fresh["requests"] else "equal")
+            for i, r in enumerate(two):
+                b, a = dict(r["cfg_before"]), dict(r["cfg_after"])
+                ch = sorted(k for k in set(a) | set(b) if a.get(k) != b.get(k))
+                print(f"  run {i + 1} changed {len(ch)} fields of the caller's objects:", [[k, b.get(k), a.get(k)] for k in ch[:6]])
+            continue
         if "other_configuration" in case and case.get("phase"):
             def hspec(cfg):
                 sp = {"phases": [case["phase"]], "modes": cfg.get("modes", ["positive"]), "seed": case["seed"], "workers": 1, "max_examples": case.get("max_examples", 8),
